@@ -249,8 +249,23 @@ Theorem C01_2d_column_inner_bank_is_lazy :
 Proof. exact vec2_col_lazy_inner. Qed.
 Print Assumptions C01_2d_column_inner_bank_is_lazy.
 
+(* the flattened form: e.C1(b1)[.Where(p1)].SelectMany(lambda o: e.C2(b2)[.Where(p2)]).Select(lambda x: body) - ONE vector; the
+   inner loop pushes onto the column itself (ColFlat, covered by C01_fragment_row and C01_query_job as well) *)
+Theorem C01_flattened_column_is_selectmany :
+  forall (ev : event) (c1 : collref) (g1 : guard) (c2 : collref) (g2 : guard) (body : bexp)
+         (f1 f2 : value -> bool) (g : value -> value) (l1 l2 : list value),
+  assoc_ss (c_ctype c1, c_bank c1) (ev_colls ev) = Some (VVec l1) ->
+  assoc_ss (c_ctype c2, c_bank c2) (ev_colls ev) = Some (VVec l2) ->
+  passes_total ev g1 l1 f1 -> passes_total ev g2 l2 f2 ->
+  (forall v, In v l2 -> f2 v = true -> db ev v body = ROk (g v)) ->
+  dcol ev (ColFlat c1 g1 c2 g2 body) =
+  ROk (VVec (flat_map (fun _ => map (fun v => conv (btype body) (g v)) (filter f2 l2)) (filter f1 l1))).
+Proof. exact flat_col_linq. Qed.
+Print Assumptions C01_flattened_column_is_selectmany.
+
 Definition r2d : row :=
   [("trk_pt", ColVec2 jets (GOne {| p_neg := false; p_op := ">"; p_l := PMeth "pt"; p_r := PInt 30 |}) trks GNone (BPa (PMeth "pt")));
+   ("flat", ColFlat jets (GOne {| p_neg := false; p_op := ">"; p_l := PMeth "pt"; p_r := PInt 30 |}) trks GNone (BPa (PMeth "pt")));
    ("n", ColScalar (ECount {| k_coll := jets; k_guard := GNone; k_agg := ACount |}))].
 Definition ev2d : event :=
   {| ev_colls := [(("const xAOD::JetContainer*", "aj"), VVec [VObj 0; VObj 1; VObj 2]);
@@ -262,10 +277,12 @@ Definition ev2d_lazy : event :=
   {| ev_colls := [(("const xAOD::JetContainer*", "aj"), VVec [VObj 0])]; ev_meths := [((0, "pt"), VDbl (QArith_base.inject_Z 10))] |}.
 Example C01_2d_nonvacuous :
   row_bases_ok r2d = true /\
-  drow ev2d r2d = ROk [VVec [VVec [VDbl (QArith_base.inject_Z 1); VDbl (QArith_base.inject_Z 2)]; VVec [VDbl (QArith_base.inject_Z 1); VDbl (QArith_base.inject_Z 2)]]; VInt 3] /\
+  drow ev2d r2d = ROk [VVec [VVec [VDbl (QArith_base.inject_Z 1); VDbl (QArith_base.inject_Z 2)]; VVec [VDbl (QArith_base.inject_Z 1); VDbl (QArith_base.inject_Z 2)]];
+                       VVec [VDbl (QArith_base.inject_Z 1); VDbl (QArith_base.inject_Z 2); VDbl (QArith_base.inject_Z 1); VDbl (QArith_base.inject_Z 2)]; VInt 3] /\
   run_job (prog_q atlas {| q_filter := None; q_body := QRow r2d |} 1) [ev2d; ev2d_lazy] =
-  JDone [[[VVec [VVec [VDbl (QArith_base.inject_Z 1); VDbl (QArith_base.inject_Z 2)]; VVec [VDbl (QArith_base.inject_Z 1); VDbl (QArith_base.inject_Z 2)]]; VInt 3]];
-         [[VVec []; VInt 1]]].
+  JDone [[[VVec [VVec [VDbl (QArith_base.inject_Z 1); VDbl (QArith_base.inject_Z 2)]; VVec [VDbl (QArith_base.inject_Z 1); VDbl (QArith_base.inject_Z 2)]];
+            VVec [VDbl (QArith_base.inject_Z 1); VDbl (QArith_base.inject_Z 2); VDbl (QArith_base.inject_Z 1); VDbl (QArith_base.inject_Z 2)]; VInt 3]];
+         [[VVec []; VVec []; VInt 1]]].
 Proof. vm_compute. repeat split; reflexivity. Qed.
 
 (* ---------- CMS miniAOD ---------- *)
